@@ -115,6 +115,17 @@ package jsonapi
 //@ ensures kept: dataKept(sr)
 //@ ensures new-are-zero: dataNewZero(sr)
 
+//@ func SoftResource.SetType
+//@ props C17 C18
+//@ requires nonnil: sr != nil
+//@ requires wf: srTypeWf(sr)
+//@ modifies obj[SoftResource](sr), obj[Type](sr.Type), map[map[string]any](sr.data), new[Type], new[map[string]any], new[map[string]Attr], new[map[string]Rel], new[time.Time], new[uint8], new[string]
+//@ ensures type: sr.Type == typ
+//@ ensures id-meta: sr.id == old(sr.id) && sr.meta == old(sr.meta)
+//@ ensures data-ref: sr.data != nil && (old(sr.data) != nil ==> sr.data == old(sr.data))
+//@ ensures old-type-kept: old(sr.Type) != nil ==> old(sr.Type).Name == old(sr.Type.Name) && old(sr.Type).NewFunc == old(sr.Type.NewFunc) && (old(sr.Type.Attrs) != nil ==> old(sr.Type).Attrs == old(sr.Type.Attrs)) && (old(sr.Type.Rels) != nil ==> old(sr.Type).Rels == old(sr.Type.Rels))
+//@ ensures kept: old(sr.Type) != nil ==> (forall k string :: k in old(mapdom(sr.data)) && (k in old(sr.Type).Attrs || k in old(sr.Type).Rels) ==> k in sr.data && sr.data[k] == old(mapval(sr.data))[k])
+
 //@ func SoftResource.Attrs
 //@ props C17
 //@ requires nonnil: sr != nil
